@@ -146,7 +146,7 @@ def generate(ctx):
     max_len = 1300
     for _ in range(ctx.pick(250, 2500)):
         kind = rng.choice(["random", "nines", "tenpow", "tenpow+d", "runs", "chain", "chain", "longchain", "machine", "limbs", "limbs", "limbs"])
-        n = rng.choice([1, 2, 3, 5, 17, 18, 19, 20, 21, 40, 100, 300, rng.randint(1, max_len)])
+        n = rng.choice([1, 2, 3, 5, 17, 18, 19, 20, 21, 40, 100, 300, 639, 640, 641, rng.randint(1, max_len)])
         if kind == "random":
             s = str(rng.randint(1, 9)) + "".join(rng.choice("0123456789") for _ in range(n - 1))
         elif kind == "nines":
@@ -173,6 +173,10 @@ def generate(ctx):
             c = rng.randint(1001, 1290)
             s = rng.choice("12345678") + rng.choice("09") * c + rng.choice("0123456789")
         yield "numbers", dict(s=s, kind=kind)
+    if ctx.shard == 2 or (not ctx.quick() and ctx.shard < 4):
+        # one borrow / carry chain of 66 000 digits (a recursion per zero would exhaust the stack) - with the trap lifted,
+        # because these strings are far beyond any int<->str limit anyway
+        yield "huge_chain", dict(zeros=66000 + rng.randint(0, 500))
     for _ in range(ctx.pick(20, 200)):
         yield "poison", dict(bad=rng.choice(["12.5", "-5", "1,000,000", "1e6", "0x1F", " 42", "4 2", "abc", "", "12a4", "１２"]),
                              good=[gens.limb_number(rng, 3) if rng.random() < 0.5 else str(rng.randrange(10 ** rng.randint(1, 30))) for _ in range(4)],
@@ -227,7 +231,7 @@ def check_limb_grid(ctx, case):
                 for lead in ("", "7"):
                     s = (lead + hi + mid + lo).lstrip("0") or "0"
                     for op in OPS:
-                        for base in ({str(m)} if op in ("mul", "div") else {str(m), "9"}):
+                        for base in ({str(m), "9"} if op == "mul" else {str(m)} if op == "div" else {str(m), "9"}):
                             _call(ctx, dsw, op, s, base)
                             n += 1
     ctx.cls("limb grid|block width %d" % b)
@@ -261,6 +265,25 @@ def check_poison(ctx, case):
     ctx.cls("valid calls after a call with malformed text")
 
 
+def check_huge_chain(ctx, case):
+    dsw = import_dsw()
+    z = case["zeros"]
+    for op, number, base, want in (("sub", "1" + "0" * z, "1", "9" * z), ("add", "9" * z, "1", "1" + "0" * z),
+                                   ("sub", "47" + "0" * z + "2", "5", "46" + "9" * z + "7")):
+        fn = dsw.calculus_subtraction if op == "sub" else dsw.calculus_addition
+        with clock.budget(10 ** 9):
+            try:
+                got = fn(number, base)
+            except Exception as e:  # noqa
+                ctx.fail("%s-raised" % op, "%s on a %d-digit number with a %d-digit %s chain raised %s: %s" % (
+                    op, len(number), z, "borrow" if op == "sub" else "carry", type(e).__name__, str(e)[:80]))
+                continue
+        if got != want:
+            ctx.fail("%s-differs-uncontracted" % op, "%s on a %d-digit chain differs from the exact result" % (op, z))
+    ctx.cls("chain of more than 65536 digits")
+    ctx.done("huge_chain", case, True)
+
+
 def check_via_coding(ctx, case):
     """The contracts also guard the helpers' internal use by encode/decode."""
     dsw = import_dsw()
@@ -292,7 +315,7 @@ def check_repo_tests(ctx, case):
     ctx.done("repo_tests", case, n > 0)
 
 
-CHECKS = {"repo_tests": check_repo_tests, "limb_grid": check_limb_grid, "poison": check_poison, "block": check_block, "numbers": check_numbers, "one": check_one, "via_coding": check_via_coding}
+CHECKS = {"repo_tests": check_repo_tests, "huge_chain": check_huge_chain, "limb_grid": check_limb_grid, "poison": check_poison, "block": check_block, "numbers": check_numbers, "one": check_one, "via_coding": check_via_coding}
 
 
 def reachable_states():
@@ -323,7 +346,7 @@ def floors(agg, tier):
     for bw in (9, 15, 18, 64):
         if c.get("limb grid|block width %d" % bw, 0) < 8:
             out.append("limb grid for block width %d: %d of 8 multipliers" % (bw, c.get("limb grid|block width %d" % bw, 0)))
-    for name, need in (("kind|limbs", 50), ("valid calls after a call with malformed text", 100)):
+    for name, need in (("chain of more than 65536 digits", 1), ("kind|limbs", 50), ("valid calls after a call with malformed text", 100)):
         if c.get(name, 0) < need:
             out.append("%s observed %d < %d" % (name, c.get(name, 0), need))
     for op in ("add", "sub"):
